@@ -343,7 +343,7 @@ class RF24:
         while force_retry and not result:
             result = self.resend(send_only)
             force_retry -= 1
-        if self._in[0] & 0x60 == 0x60 and not send_only:
+        if result is True and self._in[0] & 0x60 == 0x60 and not send_only:
             result = self.read()  # type: ignore[assignment]
         # self._ce_pin.value = False
         return result  # type: ignore[return-value]
